@@ -80,6 +80,9 @@ func (rcSuite) Gen(r *rand.Rand, i int) Case {
 		c.Tags = append(c.Tags, "top-of-index-range")
 	}
 	nops := 1 + r.Intn(40)
+	if r.Intn(25) == 0 {
+		nops = 200 + r.Intn(300) // a long history: state that only goes wrong after it accumulates
+	}
 	for j := 0; j < nops; j++ {
 		d, tag := g.next(r)
 		c.Tags = append(c.Tags, tag)
